@@ -262,6 +262,27 @@ pub fn secret(full: bool) -> ChatScn {
 
 /// "Joined successfully": with max_joins = 1 a refused JOIN (of an existing or a new
 /// channel, alone or inside a comma list) puts nobody on any roster.
+/// A KICK that removes the last members (the kicker included, once it gave up founder
+/// status): the channel vanishes, and the removed members are told all the same.
+pub fn last_kick() -> ChatScn {
+    let mut s = scenario("c04-last-kick", false);
+    s.alphabet_for.retain(|(slot, t)| *slot < 2 && (*t == "JOIN #x" || *t == "PART #x" || *t == "KICK #x {peer}"));
+    for slot in 0..2 {
+        for t in ["MODE #x -q {me}", "MODE #x +o {peer}", "KICK #x {me}", "KICK #x {peer},{me}", "KICK #x {me},{peer}"] {
+            s.alphabet_for.push((slot, t));
+        }
+    }
+    s.ends = vec![];
+    s.step_oracle = Some(Box::new(|scn, pre, obs, post, goals| {
+        if obs.act.render().contains("KICK") && pre.m.chans.contains_key("#x") && !post.m.chans.contains_key("#x") {
+            goals.insert(if pre.m.chans["#x"].members.len() > 1 { "last-kick:two-removed".into() } else { "last-kick:self-removed".into() });
+        }
+        roster_reconstructs(scn, pre, obs, post, goals)
+    }));
+    s.goals = vec!["views-compared", "roster-kick", "last-kick:two-removed", "last-kick:self-removed"];
+    s
+}
+
 pub fn quota() -> ChatScn {
     let mut s = scenario("c04-quota", false);
     s.cfg.max_joins = Some(1);
@@ -293,6 +314,7 @@ pub fn plan(quick: bool) -> Plan {
     parts.push(Part::Bfs(Box::new(ghost(!quick)), lim(if quick { 6 } else { 8 }, 2_000_000, if quick { 20.0 } else { 600.0 })));
     parts.push(Part::Bfs(Box::new(secret(!quick)), lim(if quick { 4 } else { 6 }, 2_000_000, if quick { 20.0 } else { 600.0 })));
     parts.push(Part::Bfs(Box::new(quota()), lim(if quick { 4 } else { 6 }, 2_000_000, if quick { 20.0 } else { 600.0 })));
+    parts.push(Part::Bfs(Box::new(last_kick()), lim(if quick { 5 } else { 7 }, 2_000_000, if quick { 20.0 } else { 600.0 })));
     if quick {
         parts.push(Part::Bfs(Box::new(scenario("c04-churn", false)), lim(6, 3_000_000, 40.0)));
     } else {
